@@ -218,7 +218,7 @@ def _zone_cases(ctx):
 def run(ctx):
     p = ctx.p
     zc = _zone_cases(ctx)
-    ctx.require(sum(zc.values()) >= 5, "fewer than 5 zone attachments (tz_localize) found")
+    ctx.require(sum(zc.values()) >= 5, "fewer than 5 zone attachments (tz_localize) found", rules=['C19.g', 'C15.g', 'C20.h', 'C11.i', 'C19.h', 'C20.i', 'C15.h', 'C19.k'])
     n_a = n_e = 0
     for fn in sorted(p.all_functions(), key=lambda f: f.qualname):
         if fn.parent is not None:
@@ -298,13 +298,13 @@ def run(ctx):
                                "zone-aware grid a naive user date raises TypeError (asset windows, interval data and take periods with naive "
                                "dates are healed)" % au.short(other, 40), node=n,
                                ok_detail="zone-normalised" if normalised else "derived from the grid")
-    ctx.require(n_a >= 4, "fewer than 4 interval membership tests over time points found")
-    ctx.require(n_e >= 5, "fewer than 5 ordering comparisons with grid time points found")
+    ctx.require(n_a >= 4, "fewer than 4 interval membership tests over time points found", rules=['C19.a'])
+    ctx.require(n_e >= 5, "fewer than 5 ordering comparisons with grid time points found", rules=['C19.e'])
 
     # ================================================================= C19.b
     tg = p.cls("Timegrid")
     vg = tg.methods.get("values_to_grid")
-    ctx.require(vg is not None, "Timegrid.values_to_grid vanished")
+    ctx.require(vg is not None, "Timegrid.values_to_grid vanished", rules=['C19.b'])
     done = False
     for lp in [s for s in au.walk_stmts(vg.body) if isinstance(s, ast.For)]:
         stores = [s for s in lp.body if isinstance(s, ast.Assign) and isinstance(s.targets[0], ast.Subscript) and isinstance(s.targets[0].value, ast.Name)]
@@ -432,7 +432,7 @@ def run(ctx):
                    "start): fine steps before the first / after the last boundary belong to no coarse interval, the asset is silently "
                    "inactive there (hourly grid of 84 h with a daily asset: 72 steps covered; two weeks with 'W': one of two)" % (seq_name or au.U(seq)),
                    node=lp, ok_detail="opened with the window start and closed with the window end")
-    ctx.require(n_c >= 8, "fewer than 8 sub-grid attribute assignments found in Timegrid.__init__")
+    ctx.require(n_c >= 8, "fewer than 8 sub-grid attribute assignments found in Timegrid.__init__", rules=['C19.c', 'C19.i', 'C19.j'])
     # ---- C19.j: the main grid's own range
     main_ranges = [st for st in au.walk_stmts(init.body) if isinstance(st, ast.Assign) and isinstance(st.targets[0], ast.Name)
                    and isinstance(st.value, ast.Call) and au.method_name(st.value) == "date_range"
